@@ -6,7 +6,7 @@ cd $A
 git status --short | while read st f; do
   case "$st" in
     '??')
-      case "$f" in evidence/*|replays/*) continue;; esac
+      case "$f" in evidence/*|replays/*|seeded/*) continue;; esac
       if [ -d "$f" ]; then mkdir -p /verif/$f; cp -r $f/. /verif/$f/; else mkdir -p /verif/$(dirname $f); cp $f /verif/$f; fi
       echo "added $f";;
     *) echo "SKIP (modified shared) $st $f";;
